@@ -39,6 +39,8 @@ class Features:
     odd_names: bool = False          # non-ASCII identifiers, module/class name clashes
     consumers: bool = False          # C07: consumers importing re-exported objects from old and new locations
     max_modules: int = 6
+    overrides: bool = False          # member names shared along class hierarchies (class var / instance var / method overrides)
+    name_salt: Optional[int] = None  # permutes the alphabetical order of module names without changing the structure
 
     @classmethod
     def namespace(cls) -> 'Features':       # C03
@@ -51,15 +53,15 @@ class Features:
     @classmethod
     def history(cls) -> 'Features':         # C02
         return cls(reexports=True, star=True, cycles=True, duplicates=True, fields=True, zope=True, odd_names=True,
-                   assign_alias=True, docstyle='epytext')
+                   assign_alias=True, docstyle='epytext', overrides=True)
 
     @classmethod
     def order(cls) -> 'Features':           # C06
-        return cls(reexports=True, star=True, cycles=False, duplicates=False, multi_root=True)
+        return cls(reexports=True, star=True, cycles=False, duplicates=False, multi_root=True, assign_alias=True, overrides=True)
 
     @classmethod
     def order_cycles(cls) -> 'Features':
-        return cls(reexports=True, star=True, cycles=True, duplicates=False, multi_root=True)
+        return cls(reexports=True, star=True, cycles=True, duplicates=False, multi_root=True, assign_alias=True, overrides=True)
 
     @classmethod
     def reexport(cls) -> 'Features':        # C07
@@ -68,7 +70,7 @@ class Features:
     @classmethod
     def rendering(cls) -> 'Features':       # C10 C11 C12 C17 C18 C01
         return cls(reexports=True, star=True, cycles=True, duplicates=True, privacy=True, multi_root=True, fields=True,
-                   docstyle='epytext', odd_names=True, assign_alias=True)
+                   docstyle='epytext', odd_names=True, assign_alias=True, overrides=True)
 
 
 # ---- spec -------------------------------------------------------------------------------------------
@@ -294,6 +296,23 @@ class _Gen:
             if self.f.blocks and r.random() < .12:
                 mem = Item(kind='block', block=r.choice(BLOCKS), members=[mem])
             it.members.append(mem)
+            if self.f.duplicates and mem.kind == 'func' and r.random() < .15:
+                dup = dataclasses.replace(mem, doc=(mem.doc or '') + ' second definition.')
+                it.members.append(Item(kind='dup', members=[dup], name=mem.name, uid=mem.uid))
+        if self.f.overrides:
+            for fam in ('ov1', 'ov2'):
+                k = r.random()
+                if it.bases:
+                    k *= .6          # subclasses mostly re-assign the name at class level
+                else:
+                    k = .22 + k * .5 if k < .5 else k      # roots mostly set it in __init__
+                if k < .22:
+                    it.members.append(Item(kind='raw', text=f'{fam} = {r.choice(["1", "None", "[]"])}' + (f'\n"""Doc of {name}.{fam}."""' if r.random() < .4 else '')))
+                elif k < .36:
+                    it.members.append(Item(kind='raw', text=f'def __init__(self):\n    self.{fam} = 0' + (f'\n    """Instance doc of {name}.{fam}."""' if r.random() < .4 else '')))
+                    break
+                elif k < .5:
+                    it.members.append(Item(kind='raw', text=f'def {fam}m(self):' + (f'\n    """Doc of {name}.{fam}m."""' if r.random() < .5 else '') + '\n    return 1'))
         if self.f.fields and r.random() < .3:
             fid = self.new_uid()
             it.doc = (it.doc or f'Doc of class {name}.') + f'\n\n@ivar iv{fid}: documented only w{fid}.\n@type iv{fid}: C{{int}}'
@@ -301,6 +320,11 @@ class _Gen:
         return it
 
     # -- modules
+    def mname(self, idx: int, prefix: str = 'm') -> str:
+        if self.f.name_salt is None:
+            return f'{prefix}{idx}'
+        return f'{prefix}{(idx * 37 + self.f.name_salt * 11) % 89:02d}'
+
     def layout(self) -> None:
         r, s = self.r, self.spec
         nroots = 2 if (self.f.multi_root and r.random() < .4) else 1
@@ -316,14 +340,14 @@ class _Gen:
             pkgs = [root.mid]
             for _ in range(r.randint(0, 2)):
                 par = r.choice(pkgs)
-                p = Mod(len(s.mods), f'k{len(s.mods)}', par, True)
+                p = Mod(len(s.mods), self.mname(len(s.mods), 'k'), par, True)
                 s.mods.append(p)
                 pkgs.append(p.mid)
             nm = r.randint(2, self.f.max_modules) if ri == 0 else r.randint(1, 2)
             for _ in range(nm):
                 par = r.choice(pkgs)
                 priv = '_' if (self.f.privacy or self.f.reexports) and r.random() < .3 else ''
-                m = Mod(len(s.mods), f'{priv}m{len(s.mods)}', par, False, order=order)
+                m = Mod(len(s.mods), f'{priv}{self.mname(len(s.mods))}', par, False, order=order)
                 order += 1
                 s.mods.append(m)
         if self.f.odd_names and r.random() < .3:
@@ -361,7 +385,7 @@ class _Gen:
     def fill_module(self, m: Mod) -> None:
         r, s, f = self.r, self.spec, self.f
         items: List[Item] = []
-        m.doc = self.doc(f'module {m.name}', [])
+        m.doc = self.doc(f'module #{m.mid}', [])
         visible: List[Tuple[str, Optional[int]]] = []       # class expressions usable as bases here
         refs: List[str] = []
         local_names: Dict[str, Tuple[str, Any]] = {}
@@ -389,6 +413,12 @@ class _Gen:
                     if s.defs[uid][2] == 'class':
                         visible.append((ln, uid))
                     refs.append(ln)
+                    # sibling-module re-exporter: this module lists the imported name in its own __all__
+                    if f.reexports and r.random() < .25 and uid not in self.reexported and not s.notes.get(('all', src.mid)) \
+                            and s.defs[uid][0] == src.mid and '.' not in s.defs[uid][1]:
+                        self.reexported.add(uid)
+                        s.moved[uid] = (m.mid, ln)
+                        s.notes.setdefault(('reexp', m.mid), []).append(ln)
             elif form == 'star':
                 it = Item(kind='import', text=f'from {path} import *', star_from=s.modname(src.mid))
                 # names bound are decided by the source module's __all__/public names: recorded by the dumper, not here
@@ -451,9 +481,38 @@ class _Gen:
                 dup.doc = (d.doc or '') + ' second definition.'
                 items.append(Item(kind='dup', members=[dup], name=d.name, uid=d.uid))
                 s.notes.setdefault('dups', []).append(d.uid)
-        if f.assign_alias and visible and r.random() < .3:
+        if f.zope and r.random() < .35:
+            items.insert(0, Item(kind='raw', text='from zope.interface import Interface, implementer'))
+            iu = self.new_uid()
+            iface = Item(kind='class', name=f'I{iu}', uid=iu, bases=['Interface'], base_uids=[None], doc=f'Interface I{iu}.')
+            iface.members.append(Item(kind='raw', text=f'def im{iu}(arg):\n    "interface method"'))
+            s.defs[iu] = (m.mid, iface.name, 'class')
+            s.notes['qual2uid'][(m.mid, iface.name)] = iu
+            items.append(iface)
+            exports.append((iface.name, iu, 'class'))
+            ifaces = s.notes.setdefault('ifaces', [])
+            ifaces.append((iface.name, iu, m.mid))
+            cu = self.new_uid()
+            impl = Item(kind='class', name=f'C{cu}', uid=cu, deco=f'@implementer({iface.name})', doc=None)
+            impl.members.append(self.make_func(m.mid, impl.name, True, refs))
+            s.defs[cu] = (m.mid, impl.name, 'class')
+            s.notes['qual2uid'][(m.mid, impl.name)] = cu
+            items.append(impl)
+            exports.append((impl.name, cu, 'class'))
+            visible.append((impl.name, cu))
+        if f.assign_alias and visible and r.random() < .4:
             a = f'al{self.new_uid()}'
-            items.append(Item(kind='alias', name=a, text=f'{a} = {r.choice(visible)[0]}'))
+            dotted = [v for v in visible if '.' in v[0]]
+            tgt = r.choice(dotted) if dotted and r.random() < .6 else r.choice(visible)
+            items.append(Item(kind='alias', name=a, text=f'{a} = {tgt[0]}'))
+            visible.append((a, tgt[1]))
+            exports.append((a, tgt[1], 'class')) if tgt[1] is not None and r.random() < .5 else None
+            if r.random() < .6:
+                d = self.make_class(m.mid, '', [(a, tgt[1])], refs)
+                d.bases, d.base_uids = [a], [tgt[1]]
+                items.append(d)
+                exports.append((d.name, d.uid, 'class'))
+                visible.append((d.name, d.uid))
         if f.class_imports and earlier and r.random() < .3:
             src = r.choice(earlier)
             n, uid, kind = r.choice(self.exports[src.mid])
@@ -473,8 +532,9 @@ class _Gen:
             hu = self.new_uid()
             items.append(Item(kind='raw', text=f'def outer{hu}():\n    class Local{hu}: pass\n    def local{hu}(): pass\n    return Local{hu}, local{hu}',
                               name=f'outer{hu}'))
-        if f.star and r.random() < .35:
-            pub = [n for n, _, _ in exports if r.random() < .7]
+        reexp = s.notes.get(('reexp', m.mid), [])
+        if (f.star and r.random() < .35) or reexp:
+            pub = [n for n, _, _ in exports if r.random() < .7] + list(reexp)
             if pub:
                 items.append(Item(kind='all', names=pub))
                 s.notes[('all', m.mid)] = pub
@@ -484,7 +544,7 @@ class _Gen:
     def fill_package(self, p: Mod) -> None:
         r, s, f = self.r, self.spec, self.f
         items: List[Item] = []
-        p.doc = self.doc(f'package {p.name}', [])
+        p.doc = self.doc(f'package #{p.mid}', [])
         subtree = [x for x in s.mods if not x.is_pkg and x.mid != p.mid and s.modname(x.mid).startswith(s.modname(p.mid) + '.')]
         allnames: List[str] = []
         if f.reexports:
@@ -527,6 +587,17 @@ class _Gen:
             exports.append((d.name, d.uid, d.kind))
             if r.random() < .5 and allnames:
                 allnames.append(d.name)
+        if f.odd_names and f.reexports and r.random() < .15:
+            # package __init__ re-exports, under the *name of a submodule*, a class defined in that submodule
+            direct = [x for x in s.children(p.mid) if not x.is_pkg and self.exports.get(x.mid)]
+            cands = [(x, e) for x in direct for e in self.exports[x.mid] if e[2] == 'class' and e[1] not in self.reexported]
+            if cands:
+                # the stdlib `unittest` shape: submodule x holds `x = SomeClass`; the package does `from .x import x` and exports 'x'
+                x, (n, uid, kind) = r.choice(cands)
+                x.items.append(Item(kind='alias', name=x.name, text=f'{x.name} = {n}'))
+                items.append(Item(kind='import', text=f'from .{x.name} import {x.name}', binds=[(x.name, 'obj', uid)]))
+                allnames.append(x.name)
+                s.notes['module_name_clash'] = True
         if allnames:
             items.append(Item(kind='all', names=allnames))
             s.notes[('all', p.mid)] = allnames
@@ -547,6 +618,44 @@ class _Gen:
                     hu = self.new_uid()
                     m.items.append(Item(kind='raw', text=f'def late{hu}():\n    from {s.modname(src.mid)} import {n}\n    return {n}', name=f'late{hu}'))
                 s.notes['has_cycle'] = True
+
+    def add_consumers(self) -> None:
+        """C07: modules that refer to re-exported objects through the defining module, the re-exporting module, or both"""
+        r, s = self.r, self.spec
+        root = s.mods[0]
+        cons = []
+        for uid, (rmid, exported) in list(s.moved.items()):
+            dmid, qual, kind = s.defs[uid]
+            D, R = s.modname(dmid), s.modname(rmid)
+            name = qual
+            for style in r.sample(['from-D', 'from-R', 'import-D', 'import-R', 'both'], r.randint(1, 3)):
+                cu = self.new_uid()
+                prefix = r.choice(['a', 'z', 'm'])
+                cm = Mod(len(s.mods), f'{prefix}cons{cu}', root.mid, False, order=10 ** 5 + cu)
+                lines = []
+                refs = []
+                if style in ('from-D', 'both'):
+                    lines.append(f'from {D} import {name} as D{cu}')
+                    refs.append((f'D{cu}', 'name'))
+                if style in ('from-R', 'both'):
+                    lines.append(f'from {R} import {exported} as R{cu}')
+                    refs.append((f'R{cu}', 'name'))
+                if style == 'import-D':
+                    lines.append(f'import {D}')
+                    refs.append((f'{D}.{name}', 'dotted'))
+                if style == 'import-R':
+                    lines.append(f'import {R} as MR{cu}')
+                    refs.append((f'MR{cu}.{exported}', 'dotted'))
+                body = []
+                for i, (ref, _) in enumerate(refs):
+                    if kind == 'class':
+                        body.append(f'class U{cu}_{i}({ref}):\n    """Subclass. See L{{{D}.{name}}} and L{{{R}.{exported}}}."""')
+                    body.append(f'def g{cu}_{i}(a: {ref}) -> {ref}:\n    """Uses L{{{ref}}}, L{{{D}.{name}}} and L{{{R}.{exported}}}."""')
+                cm.items = [Item(kind='raw', text='\n'.join(lines + body))]
+                cm.doc = f'Consumer of object {uid}.'
+                s.mods.append(cm)
+                cons.append({'mid': cm.mid, 'uid': uid, 'refs': refs, 'kind': kind, 'cu': cu, 'style': style})
+        s.notes['consumers'] = cons
 
     def add_privacy(self) -> None:
         r, s = self.r, self.spec
@@ -578,6 +687,8 @@ def generate(r: Any, f: Features) -> Spec:
     # packages bottom-up
     for p in sorted([m for m in s.mods if m.is_pkg], key=lambda m: -len(s.modname(m.mid))):
         g.fill_package(p)
+    if f.consumers:
+        g.add_consumers()
     if f.cycles:
         g.add_cycles()
     if f.privacy:
@@ -624,6 +735,8 @@ def _emit_items(g: Optional[_Gen], items: List[Item], indent: str, out: List[str
             if it.deco == 'old-staticmethod':
                 out.append(f'{indent}{name} = staticmethod({name})')
         elif it.kind == 'class':
+            if it.deco:
+                out.append(f'{indent}{it.deco}')
             out.append(f"{indent}class {it.name}{'(' + ', '.join(it.bases) + ')' if it.bases else ''}:")
             out.extend(gen.render_doc(it.doc, indent + '    ', 'quote-below' if (it.doc and '\n' in it.doc) else None))
             if it.members:
